@@ -448,6 +448,18 @@ class Impl:
             if self.role == "client":
                 if q and q[-1].type.value == 3:
                     o[4] = bytes(q[-1].payload)
+                else:
+                    # the challenge response was already emitted by the same update() call:
+                    # recover its payload from the datagram (single message: seq(2) + payload)
+                    from cryptography.hazmat.primitives.ciphers.aead import AESGCM
+                    for d in getattr(self.sock, "sent", []):
+                        if len(d) > 20 and d[12] == 3 and self.conn.session_key_bytes:
+                            try:
+                                ln = struct.unpack(">H", d[13:15])[0]
+                                pt = AESGCM(self.conn.session_key_bytes).decrypt(d[:12], d[20:20 + ln + 16], d[:20])
+                                o[4] = bytes(pt[2:])
+                            except Exception:   # noqa
+                                pass
             else:
                 if q and q[-1].type.value == 2 and o[1]:
                     o[4] = bytes(q[-1].payload)
@@ -492,7 +504,9 @@ def restore_mtu():
 
 
 def canon(outs):
-    return sorted(outs, key=lambda o: o[0])
+    """order-insensitive; log lines (model output kind 5: the built-in time-out callbacks only
+    write to the log) are not observed on the implementation side and are dropped"""
+    return sorted([o for o in outs if o[0] != 5], key=lambda o: o[0])
 
 
 def run_history(run, role, events, key=7, mtu=1500, established=True, every=True, pinned=True):
